@@ -471,6 +471,24 @@ def timeseries_networks(ctx):
                                                 threshold=(thr, thr, thr + 0.5), silence_level=3)
         equivariance(ctx, "RecurrenceNetwork", mk_rn, perm,
                      own(RecurrenceNetwork, RecurrencePlot), n, dict(base, cls="RecurrenceNetwork"))
+        # fixed-rate variants on the same (heavily tied) distances: the global quantile gives an
+        # undirected, the row-wise quantile a directed network; both must commute with reordering
+        rate = rng.choice([0.25, 0.4, 0.55])
+
+        def mk_rn_rr(p):
+            idx = np.arange(n) if p is None else np.array(p)
+            return RecurrenceNetwork(x[idx], metric=metric, recurrence_rate=rate, silence_level=3)
+
+        def mk_rn_lrr(p):
+            idx = np.arange(n) if p is None else np.array(p)
+            return RecurrenceNetwork(x[idx], metric=metric, local_recurrence_rate=rate,
+                                     silence_level=3)
+        equivariance(ctx, "RecurrenceNetwork", mk_rn_rr, perm,
+                     own(RecurrenceNetwork, RecurrencePlot), n,
+                     dict(base, cls="RecurrenceNetwork", recurrence_rate=rate))
+        equivariance(ctx, "RecurrenceNetwork", mk_rn_lrr, perm,
+                     [m for m in own(RecurrenceNetwork, RecurrencePlot) if m in DIRECTED_OK], n,
+                     dict(base, cls="RecurrenceNetwork", local_recurrence_rate=rate))
         equivariance(ctx, "JointRecurrenceNetwork", mk_jrn, perm,
                      own(JointRecurrenceNetwork, RecurrencePlot, JointRecurrencePlot), n,
                      dict(base, y=y.tolist(), cls="JointRecurrenceNetwork"))
